@@ -219,6 +219,23 @@ Proof.
   split; [apply syngraph_eqb_sound_generic; auto|apply cangraph_eqb_sound_generic; auto].
 Qed.
 
+(* canonicalising a canonical graph changes nothing on the covered attributes; hence CanonicalGraph's hash (the
+   signature of the canonical graph) is the signature of the raw graph *)
+Theorem nauty_idempotent g : wf g -> els_ok g ->
+  geq_cov (canon_nauty g) (canon_nauty (canon_nauty g)) /\ ser_nauty (canon_nauty g) = ser_nauty g.
+Proof.
+  intros Hg Eg.
+  pose proof (faithful_nauty g (proj1 Hg)) as Fg.
+  pose proof (wf_faithful _ _ Hg Fg) as Wg.
+  destruct (nauty_invariant g (canon_nauty g) Hg Wg Eg (faithful_iso _ _ Hg Fg)) as [H1 H2].
+  split; [exact H1|]. unfold ser_nauty. symmetry. exact H2.
+Qed.
+
+(* for the record: the attribute-sort back-end is NOT invariant under renumbering (nothing in C08 claims it):
+   so_g and so_h are isomorphic (inv_ex) and get different generic serialisations *)
+Example generic_not_invariant : iso_cov so_g so_h /\ ser_generic so_g <> ser_generic so_h.
+Proof. split; [apply inv_ex|]. vm_compute. discriminate. Qed.
+
 (* non-vacuity: the renumbered pair of C08_Sound/C08_Invariant compares equal, a mutant compares unequal *)
 Definition so_m : graph :=
   LG [(1%N, NA [79%N] false 0 1 None); (2%N, NA [67%N] false 0 0 None); (9%N, NA [67%N] false 0 0 None)]
@@ -233,3 +250,4 @@ Print Assumptions syngraph_nauty.
 Print Assumptions cangraph_nauty.
 Print Assumptions synrule_nauty.
 Print Assumptions cangraph_eqb_sound_generic.
+Print Assumptions nauty_idempotent.
